@@ -70,12 +70,18 @@ func buildTar(sh tarShape, rng *rand.Rand) ([]byte, error) {
 		if !strings.HasSuffix(h.Name, "/") {
 			h.Name = h.Name[:len(h.Name)-1] + "/"
 		}
-	case "symlink":
+	case "symlink", "symlink-gpkg":
 		h.Typeflag = tar.TypeSymlink
 		h.Linkname = "target/of/link"
-	case "hardlink":
+		if sh.Typ == "symlink-gpkg" { // the Gentoo exclusion is about the member NAME, not about a link target
+			h.Linkname = "releases/gpkg-1"
+		}
+	case "hardlink", "hardlink-gpkg":
 		h.Typeflag = tar.TypeLink
 		h.Linkname = "other"
+		if sh.Typ == "hardlink-gpkg" {
+			h.Linkname = "pkg/gpkg-1"
+		}
 	case "char":
 		h.Typeflag = tar.TypeChar
 		h.Devmajor, h.Devminor = 4, 64
@@ -181,7 +187,14 @@ func tartraceMain(args []string) int {
 		written++
 		formats[sh.Fmt+"/"+sh.Typ]++
 		blk := raw[:512]
-		acc := tarDet(exact(raw), 3072)
+		// the first block is complete under every limit >= 512 (and 0): limits that are not record multiples too
+		lim := []uint32{3072, 3072, 0, 512, 1000, 2000, 10000}[i%7]
+		mimetype.SetLimit(lim)
+		hdr := raw
+		if lim > 0 && len(hdr) > int(lim) {
+			hdr = hdr[:lim]
+		}
+		acc := tarDet(exact(hdr), lim)
 		m := mimetype.Detect(exact(raw))
 		ch := bareChain(m)
 		ex := ch[0] != "application/x-tar" && len(ch) > 1 && ch[len(ch)-2] != "application/x-tar"
@@ -196,7 +209,8 @@ func tartraceMain(args []string) int {
 		if len(ch) >= 2 {
 			rootChild = ch[len(ch)-2]
 		}
-		emit(i, map[string]any{"ev": "tar", "id": i, "block": bytes2ints(blk), "accepted": acc, "result": ch[0], "rootchild": rootChild, "exempt": ex, "shape": sh})
+		emit(i, map[string]any{"ev": "tar", "id": i, "block": bytes2ints(blk), "accepted": acc, "result": ch[0], "rootchild": rootChild, "exempt": ex, "shape": sh, "limit": lim})
+		mimetype.SetLimit(3072)
 		if len(blocks) < *corrupt && (i%(len(shapes) / *corrupt + 1)) == 0 {
 			blocks = append(blocks, append([]byte{}, raw...))
 		}
